@@ -54,7 +54,22 @@ def parseCi (impl : String) : Option (Bool × Nat) :=
     | ["err", _, n] => n.toNat?.map fun n => (false, n)
     | _ => none
 
-def kfInteg (bs : List Nat) : String := if Fit.IntegritySpec.legacyMet bs then "KF-C04-1" else "-"
+/-- the EXACT class of KF-C04-1: the integrity rules and the rules as built (checksum restarts after the header) give
+different verdicts or counts — `IntegritySpec.kfC04`, the complement of the hypothesis of `C04_reference_partial` -/
+def kfInteg (bs : List Nat) : String := if Fit.IntegritySpec.kfC04 bs then "KF-C04-1" else "-"
+
+/-- the `eo=<n> el=<length>` tag of the harness: "these bytes ARE the output of the real encoder for a chain of `n` sequences, all
+with 14-byte headers" (the generator knows). On a tagged operation the predicate the theorems assume of encoder output
+must hold — for `n = 1` the very `IsEncoderOutput14` of `C04_burst` / `C04_truncation`, proved of the encoder model by
+`C04_encoder_output` — and its failure is a property failure, not an abstention. -/
+def encoderTagOK (a : IntegArgs) : Option Bool :=
+  -- the tag names the length of the bytes it speaks about (`el=<len>`): a line whose bytes were cut down by the
+  -- shrinker of the framework is no longer a tagged line (the replay of a `fail:not-encoder-output` stays the real output)
+  match a.get "eo", a.get "el" with
+  | some n, some l =>
+    if l ≠ a.bytes.length then none
+    else some (if n = 1 then decide (Fit.IntegritySpec.IsEncoderOutput14 a.bytes) else Fit.IntegritySpec.isEncoderChain14 a.bytes n)
+  | _, _ => none
 
 /-- `integ [chk=0|1] [rb=<n>] b:<hex>`: outcome of `CheckIntegrity` and of the decode loop -/
 def hInteg : Handler := fun r =>
@@ -64,8 +79,11 @@ def hInteg : Handler := fun r =>
     match r.mode with
     | .model => s!"ci={showResult (checkIntegrity a.bytes)} dec={showDResult (decodeAll a.chk a.bytes)}"
     | .spec => "n/a"
-    | .kf => kfInteg a.bytes
+    -- a tagged encoder output that is not "encoder output" is never the known finding (else `fail:not-encoder-output`
+    -- would be attributed to KF-C04-1 whenever the broken output happens to lie in its class, e.g. a zero header CRC)
+    | .kf => if encoderTagOK a == some false then "-" else kfInteg a.bytes
     | .prop =>
+      if encoderTagOK a == some false then "fail:not-encoder-output" else
       -- the property: verdict and count of valid leading sequences equal the reference's
       match parseCi r.impl with
       | none => "fail:unparsable-answer"
@@ -133,6 +151,8 @@ def sweep (a : IntegArgs) (kind : String) : Option Sweep := do
   let len := a.bytes.length
   let lo := (a.get "lo").getD 0
   let hi := min ((a.get "hi").getD len) len
+  -- `end=<byte>`: a burst must END before this byte offset (default: the end of the file)
+  let lim := min ((a.get "end").getD len) len
   match kind with
   | "flip" =>
     let mut s : Sweep := {}
@@ -145,7 +165,7 @@ def sweep (a : IntegArgs) (kind : String) : Option Sweep := do
     if k < 1 ∨ k > 16 ∨ w ≥ 2 ^ k ∨ w % 2 = 0 ∨ w < 2 ^ (k - 1) then none
     let mut s : Sweep := {}
     for p in [8 * lo : 8 * hi] do
-      if p + k ≤ 8 * len then
+      if p + k ≤ 8 * lim then
         s := s.add a.chk (xorAt a.bytes p w)
     return s
   | "trunc" =>
@@ -158,7 +178,57 @@ def sweep (a : IntegArgs) (kind : String) : Option Sweep := do
 /-- "encoder output" as a predicate on bytes: the hypothesis of C04_burst / C04_truncation, evaluated -/
 def isEncoderOutput14 (bs : List Nat) : Bool := decide (Fit.IntegritySpec.IsEncoderOutput14 bs)
 
-/-- `integcx <flip|burst|trunc> [lo=<byte>] [hi=<byte>] [len=<k> pat=<w>] [chk=..] b:<hex>` -/
+/-- the sequences of a stream as (start, end) byte offsets, by the independent framing reader -/
+def seqSpans (bs : List Nat) : List (Nat × Nat) :=
+  match Fit.FitFormat.parseStream bs with
+  | some seqs => seqs.map fun s => (s.start, s.start + s.len)
+  | none => []
+
+def implCount (impl key : String) : Option Nat :=
+  (impl.splitOn " ").findSome? fun t => (stripPrefix? t (key ++ "=")).bind String.toNat?
+
+/-- C04 on one sweep: what the theorems demand of the digest the implementation printed.
+* the bytes must be encoder output: tagged operations (`eo=<n>`) FAIL when the predicate is false; untagged ones
+  (fixtures of unknown origin) are judged only when the single-sequence predicate holds;
+* `trunc`: every cut is rejected (`C04_truncation`, header cuts included) except the cuts that fall exactly on a
+  boundary between two sequences of a chain, which leave a valid shorter chain (`C04_truncation_chain_encoder`,
+  `C02_integrity_accepts`): accepted count = number of such boundaries in the swept range. For a single sequence this is
+  demanded of the check and of the decode loop; for a chain of the check only — the property's truncation clause is about
+  single-sequence files, and the documented contract of `Next` ("return false when invalid or reach EOF") ends the
+  `for dec.Next() { dec.Decode() }` loop without error when the cut falls inside the HEADER of a later sequence;
+* `flip` / `burst`: when the swept range (for bursts: up to `end`) lies inside the records and trailing CRC of ONE
+  sequence, every corruption is rejected — by the check and the decode loop for a single sequence (`C04_burst`,
+  `C04_bitflip`), by the check for a chain (`C04_burst_chain_encoder`); ranges that touch a header are not judged here
+  (header theorems: `C04_header_burst` and its two exceptions). -/
+def propCx (a : IntegArgs) (kind impl : String) : String :=
+  let tag := encoderTagOK a
+  if tag == some false then "fail:not-encoder-output"
+  else if !a.chk then "n/a"
+  else if tag.isNone && !isEncoderOutput14 a.bytes then "n/a"
+  else
+    let len := a.bytes.length
+    let lo := (a.get "lo").getD 0
+    let hi := min ((a.get "hi").getD len) len
+    let lim := min ((a.get "end").getD len) len
+    let spans := seqSpans a.bytes
+    match implCount impl "ci_ok", implCount impl "dec_ok" with
+    | some ci, some dec =>
+      if kind == "trunc" then
+        let want := (spans.filter fun sp => sp.2 < len ∧ lo ≤ sp.2 ∧ sp.2 < hi).length
+        if ci = want ∧ (dec = want ∨ spans.length > 1) then "ok" else s!"fail:truncated-file-accepted:want={want}"
+      else if kind == "flip" ∨ kind == "burst" then
+        let inside := spans.any fun sp => sp.1 + 14 ≤ lo ∧ hi ≤ sp.2 ∧ (kind == "flip" ∨ lim ≤ sp.2)
+        if !inside then "n/a"
+        -- a chain: only the check is judged (`C04_burst_chain_encoder`). `Decode` of a corrupted EARLIER sequence of a
+        -- chain may run past the declared data size (the last record may overrun it; a corrupted field size in a
+        -- definition makes it long) into the next sequence and compare its checksum with two bytes found THERE: the
+        -- guarantee of the single-sequence theorem (every overrun ends in EOF) is gone, acceptance has probability 2^-16
+        -- per corruption (met in the thorough tier: corpus/integrity.txt). The property speaks of single-sequence files.
+        else if ci = 0 ∧ (dec = 0 ∨ spans.length > 1) then "ok" else "fail:corrupted-file-accepted"
+      else "n/a"
+    | _, _ => "fail:unparsable-answer"
+
+/-- `integcx <flip|burst|trunc> [lo=<byte>] [hi=<byte>] [end=<byte>] [len=<k> pat=<w>] [chk=..] [eo=<n>] b:<hex>` -/
 def hIntegCx : Handler := fun r =>
   match r.args with
   | kind :: rest =>
@@ -169,12 +239,7 @@ def hIntegCx : Handler := fun r =>
       | .model => match sweep a kind with | some s => s.show | none => "bad-op"
       | .spec => "n/a"
       | .kf => "-"
-      | .prop =>
-        -- C04: every corruption inside the records or the trailing CRC of an intact file is rejected by both
-        if a.chk ∧ isEncoderOutput14 a.bytes ∧ (a.get "lo").getD 0 ≥ 14 then
-          if (r.impl.splitOn " ").contains "ci_ok=0" ∧ (r.impl.splitOn " ").contains "dec_ok=0" then "ok"
-          else "fail:corrupted-file-accepted"
-        else "n/a"
+      | .prop => if r.impl == "bad-op" then "n/a" else propCx a kind r.impl
   | [] => if r.mode == .model then "bad-op" else if r.mode == .kf then "-" else "n/a"
 
 /-! ### the framing specification on implementation bytes -/
